@@ -32,6 +32,7 @@ type Clause struct {
 }
 
 type Contract struct {
+	Closure bool // verified in this run only because another unit of the property applies this contract at a call site
 	Target   string // "func checkEffective", "func (*T).M", "interface I.M", "field T.F", "extern time.Time.Before"
 	Kind     string // func | interface | field | extern
 	Key      string // normalized key: "checkEffective", "(*T).M", "I.M", "T.F", "time.Time.Before"
@@ -417,6 +418,11 @@ func (c *Contract) HasProp(p string) bool {
 
 func (cl *Clause) ForProp(owner *Contract, p string) bool {
 	if p == "" || len(cl.Props) == 0 {
+		return true
+	}
+	if owner != nil && owner.Closure && cl.Kind != "assume" {
+		// verified because a unit of this property relies on the contract (callers assume every
+		// ensures clause whatever its tag): all of it
 		return true
 	}
 	for _, q := range cl.Props {
